@@ -326,6 +326,7 @@ def run(tier):
     rule_R7(res, prog)
     rule_R8(res, prog)
     rule_R9(res, prog)
+    rule_R10(res, prog)
     return res.finish()
 
 
@@ -799,3 +800,82 @@ def rule_R9(res, prog):
                                          fn.relfile, t["ln"], fn.name, kind, K, MIN[kind], kind.upper()), file=fn.relfile, line=t["ln"])
                     res.instance(rid, "%s:%s %s size < %d (minimum %d)" % (fn.name, t["ln"], kind, K, MIN[kind]), ok, finding=f_)
     res.floor(rid, 2)
+
+
+def rule_R10(res, prog):
+    """Ed25519 (RFC 8032 5.1.7) and 'truncated inputs are refused without reading outside the supplied buffer':
+    (a) wherever psEd25519Verify - which reads exactly 64 signature bytes - is called from a function that received the
+        signature together with a length, the call lies under the branch fact that this length is 64;
+    (b) in the Ed25519 verification primitive every path to the double scalar multiplication passes the canonical-scalar test
+        of S (sig + 32), i.e. 0 <= S < L, and a non-canonical S leaves with an error."""
+    import re
+    from sa import cfgutil as cu
+    rid = "C11.R10"
+    res.rule(rid, "Ed25519: the 64-byte primitive is called only with a 64-byte signature; S is tested canonical (S < L) before the group equation")
+    n = 0
+    for fn in sorted(prog.functions.values(), key=lambda f: f.qname):
+        if not fn.blocks or "/test/" in fn.relfile or fn.name == "psEd25519Verify":
+            continue
+        sites = cu.find_sites(fn, lambda q: q.get("k") == "call" and q.get("fn") == "psEd25519Verify")
+        if not sites:
+            continue
+        gf = cu.guard_facts(fn)
+        for (bid, idx, ln, call) in sites:
+            a0 = strip(call["a"][0]) if call.get("a") else None
+            while a0 is not None and a0.get("k") == "cast":
+                a0 = strip(a0["e"])
+            if a0 is None or a0.get("k") != "var" or a0.get("sc") != "p":
+                continue            # a local 64-byte array / field: sized by its type
+            pi = [i for i, p_ in enumerate(fn.params) if p_.get("id") == a0.get("id")]
+            lens = [p_["n"] for i, p_ in enumerate(fn.params) if pi and i == pi[0] + 1 and re.search(r"[Ll]en|[Ss]ize", p_.get("n") or "")]
+            if not lens:
+                continue
+            n += 1
+            L = lens[0]
+            ok = any((txt == "(%s != 64)" % L and not tr) or (txt == "(%s == 64)" % L and tr) for (txt, tr) in gf.get(bid, ()))
+            f_ = None
+            if not ok:
+                f_ = Finding(PROP, rid, fn.name, "Ed25519 primitive called without the 64-byte length fact",
+                             "%s:%s %s(): psEd25519Verify(%s, ..) reads 64 bytes, but no branch fact %s == 64 holds at the call: a shorter "
+                             "signature field (certificate BIT STRING, CertificateVerify vector) is read past its end" % (
+                                 fn.relfile, ln, fn.name, a0.get("n"), L), file=fn.relfile, line=ln)
+            res.instance(rid, "%s:%s psEd25519Verify under %s == 64" % (fn.name, ln, L), ok, finding=f_)
+    prim = [f for f in prog.functions.values() if f.blocks and f.name.endswith("crypto_sign_ed25519_verify_detached") and
+            any(c.get("fn", "").endswith("double_scalarmult_vartime") for b_, l_, c in f.calls())]
+    for fn in prim:
+        n += 1
+
+        def canonical_S(x):
+            for m in walk(x):
+                if m.get("k") == "call" and (m.get("fn") or "").endswith("sc25519_is_canonical") and m.get("a"):
+                    tx = cu.ftext(m["a"][0])
+                    if "+ 32" in tx and "sig" in tx:
+                        return True
+            return False
+        esc = cu.escapes(fn, (fn.entry, None), canonical_S,
+                         target_expr=lambda y: any(q.get("k") == "call" and (q.get("fn") or "").endswith("double_scalarmult_vartime") for q in walk(y)))
+        f_ = None
+        if esc is not None:
+            f_ = Finding(PROP, rid, fn.name, "Ed25519 S not tested canonical",
+                         "%s:%s %s(): the group equation is evaluated (via lines %s) without sc25519_is_canonical(sig + 32): S + L verifies "
+                         "like S, against RFC 8032 5.1.7 (0 <= S < L)" % (fn.relfile, esc[-1][1], fn.name, [p_[1] for p_ in esc[-5:-1]]),
+                         file=fn.relfile, line=esc[-1][1])
+        res.instance(rid, "%s: S tested canonical before the double scalar multiplication" % fn.name, esc is None, finding=f_)
+        # the failing outcome is an error
+        for b in fn.blocks:
+            t = b.get("term")
+            if t is None or "c" not in t or not canonical_S(t["c"]):
+                continue
+            for k in (0, 1):
+                for (txt, tr, nd) in cu._cond_atoms(t["c"], k == 0):
+                    if "sc25519_is_canonical(" in txt and "+ 32" in txt and ((txt.endswith("== 0)") and tr) or (not txt.endswith("== 0)") and not tr)):
+                        bad = cu.edge_only_errors(fn, b, k)
+                        n += 1
+                        f2 = None
+                        if bad is not None:
+                            f2 = Finding(PROP, rid, fn.name, "non-canonical S does not fail", "%s:%s %s(): the outcome `S not canonical` reaches "
+                                         "the non-error return at line %s" % (fn.relfile, t["ln"], fn.name, bad), file=fn.relfile, line=t["ln"])
+                        res.instance(rid, "%s:%s non-canonical S leaves with an error" % (fn.name, t["ln"]), bad is None, finding=f2)
+    if not prim and prog.defined("USE_ED25519"):
+        raise AnalysisBroken("C11.R10: the Ed25519 verification primitive was not found")
+    res.floor(rid, 3 if prog.defined("USE_ED25519") else 0)
